@@ -356,6 +356,11 @@ class Run:
             line = f"KNOWN-FINDING: property={self.pid} {kf['what_fails']}"
             if line not in known_lines:
                 known_lines.append(line + " [not exhibited by the schedules of this run]")
+        kinds = {}
+        for fam, seed, what, tf in oracle:
+            k = f"{fam}: {what.split(':')[0][:80]}"
+            kinds[k] = kinds.get(k, 0) + 1
+        self.oracle_kinds = kinds
         self.write_evidence(results, oracle, div, viol_lines, known_lines, searched, extra_out)
         for l in known_lines: print(l)
         for l in viol_lines: print(l)
@@ -408,7 +413,7 @@ class Run:
             assumptions=self.cfg.get("assumptions", []),
             wall_s=round(time.time() - self.t0, 2),
             violations=len(viol),
-            known_findings=known,
+            known_findings=known, oracle_failure_kinds=getattr(self, 'oracle_kinds', {}),
         )
         os.makedirs(os.path.join(ROOT, "evidence"), exist_ok=True)
         ef = os.path.join(ROOT, "evidence", self.pid + ".json")
